@@ -111,12 +111,18 @@ type Check struct {
 	Replay      func(cs map[string]interface{}) (reproduced bool, detail string)
 	// Finish lets a check add keys to the coverage object (after aggregation).
 	Finish func(tier string, total *Ctx, cov map[string]interface{})
+	// Extra runs in the coordinator after the workers (e.g. a separately built pass); the
+	// violations it returns are reported like the workers' and cov may be extended.
+	Extra func(tier string, cov map[string]interface{}) []Violation
 	// Workers overrides the number of worker processes (0 = NumCPU).
 	Workers int
 	// ReplayInProcess: replays are run by the coordinator binary itself.
 }
 
 var registry = map[string]*Check{}
+
+// Commands are extra sub-commands of the vcheck binary registered by checks (helper subprocesses).
+var Commands = map[string]func(args []string) int{}
 
 // Register adds a check.
 func Register(c *Check) { registry[c.ID] = c }
@@ -355,8 +361,15 @@ func Main(id, tier string) int {
 		}(shard)
 	}
 	wg.Wait()
+	extraCov := map[string]interface{}{}
+	if ck.Extra != nil {
+		for _, v := range ck.Extra(tier, extraCov) {
+			v.Case["noreplay"] = true
+			tot.merge(&Ctx{Violations: []Violation{v}})
+		}
+	}
 
-	return finish(ck, tier, seed, n, nw, startT, tot)
+	return finish(ck, tier, seed, n, nw, startT, tot, extraCov)
 }
 
 const maxCrashesPerShard = 12
@@ -516,7 +529,7 @@ func (l *limitedWriter) Write(p []byte) (int, error) {
 	return len(p), nil
 }
 
-func finish(ck *Check, tier string, seed, nUnits, nWorkers int, startT time.Time, tot *totals) int {
+func finish(ck *Check, tier string, seed, nUnits, nWorkers int, startT time.Time, tot *totals, extraCov map[string]interface{}) int {
 	vdir := VerifDir()
 	os.MkdirAll(filepath.Join(vdir, "evidence"), 0755)
 	os.MkdirAll(filepath.Join(vdir, "replays"), 0755)
@@ -562,7 +575,8 @@ func finish(ck *Check, tier string, seed, nUnits, nWorkers int, startT time.Time
 		file := filepath.Join(vdir, "replays", ck.ID+"-"+hex.EncodeToString(h[:6])+".json")
 		os.WriteFile(file, b, 0644)
 		// confirm through the replay path (fresh process, five times) unless it is a crash
-		if _, crash := v.Case["crash"]; !crash && ck.Replay != nil {
+		_, noReplay := v.Case["noreplay"]
+		if _, crash := v.Case["crash"]; !crash && !noReplay && ck.Replay != nil {
 			ok := true
 			for k := 0; k < 5; k++ {
 				out, _ := exec.Command(os.Args[0], "-replay1", file).CombinedOutput()
@@ -600,6 +614,9 @@ func finish(ck *Check, tier string, seed, nUnits, nWorkers int, startT time.Time
 		"unconfirmed_violations":        unconfirmed,
 	}
 	for k, v := range tot.ctx.Extra {
+		cov[k] = v
+	}
+	for k, v := range extraCov {
 		cov[k] = v
 	}
 	if ck.Level == "model_checking" {
